@@ -161,10 +161,11 @@ async def _t_replay_async(edge_ids):
     todo = [(item, 0) for item in edge_ids]
     while todo:
         item, attempt = todo.pop()
-        # an item is an edge, or (loop edge, following edge) for edges that leave the abstract state unchanged
+        # an item is an edge e, or (f, e) with f a non-tree edge into src(e): another arrival order that merges into
+        # the same abstract state; replayed as path_to(src f) + f + e
         loop, ei = item if isinstance(item, tuple) else (None, item)
         e = g.edges[ei]
-        path = g.path_to(e["_s"]) + ([g.edges[loop]] if loop is not None else [])
+        path = (g.path_to(g.edges[loop]["_s"]) + [g.edges[loop]]) if loop is not None else g.path_to(e["_s"])
         init = _TINITS[common.skey((path[0] if path else e)["src"])]
         pieces = init["pieces"]
         rcv = Receiver(init["init"]["proto"])
@@ -284,10 +285,11 @@ def _transfer_b1(chk: Check, xl, tl, cs, extra, label):
     ids = g.reachable_edges()
     if len(ids) != len(g.edges):
         raise MachineryError("unreachable edges in Transfer export")
-    # `arrivals` is part of the state, so a duplicate or foreign packet is never a self-loop here: every such packet is
-    # already followed by every other packet on the tree paths; selfloop_pairs() is empty by construction
-    pairs = g.selfloop_pairs()
-    chk.cov["b1_selfloop_pairs_replayed"] = chk.cov.get("b1_selfloop_pairs_replayed", 0) + len(pairs)
+    # `arrivals` is part of the state, so there are no self-loops, but different arrival orders merge into one state:
+    # every edge is also replayed behind the other orders
+    pairs = g.merge_pairs(8000 if chk.tier == "quick" else 80000)
+    chk.cov["b1_merge_pairs_replayed"] = chk.cov.get("b1_merge_pairs_replayed", 0) + len(pairs)
+    chk.notes.append("B1 transfer %s: %d edges + %d (merging edge, next edge) pairs of %d" % (label, len(ids), len(pairs), len(g.merge_pairs(10 ** 9))))
     ids = ids + pairs
     chunks = [ids[i::common.NCPU * 2] for i in range(common.NCPU * 2)]
     results = common.parallel_map(_t_replay_chunk, [c for c in chunks if c])
@@ -1172,10 +1174,12 @@ def _life_replay_chunk(edge_ids):
     def load(b, keep_raw):
         return se.BufferReader("!", b).read(LLMeshSerializer(include_raw_segments=keep_raw))
     for item in edge_ids:
-        # (loop edge, following edge): serialising twice / re-parsing the same bytes again leaves the abstract state unchanged
+        # (f, e): f is a non-tree edge into src(e) -- another history merging into the same abstract state (serialising
+        # twice / re-parsing the same bytes again are the self-loop case); replayed as path_to(src f) + f + e
         loop, ei = item if isinstance(item, tuple) else (None, item)
         e = g.edges[ei]
-        hist = [pe["act"] for pe in g.path_to(e["_s"])] + ([g.edges[loop]["act"]] if loop is not None else []) + [e["act"]]
+        pre = (g.path_to(g.edges[loop]["_s"]) + [g.edges[loop]]) if loop is not None else g.path_to(e["_s"])
+        hist = [pe["act"] for pe in pre] + [e["act"]]
         model, data, cur = _life_build(), None, {s: 0 for s in _LIFE_SEGS}
         bad = []
         for a in hist:
@@ -1235,8 +1239,9 @@ def _mesh_life(chk: Check):
     g = Graph(recs)
     _LG = g
     ids = g.reachable_edges()
-    pairs = g.selfloop_pairs()
-    chk.cov["b1_selfloop_pairs_replayed"] = chk.cov.get("b1_selfloop_pairs_replayed", 0) + len(pairs)
+    pairs = g.merge_pairs(12000 if chk.tier == "quick" else 120000)
+    chk.cov["b1_merge_pairs_replayed"] = chk.cov.get("b1_merge_pairs_replayed", 0) + len(pairs)
+    chk.notes.append("B1 mesh life cycle: %d edges + %d (merging edge, next edge) pairs of %d" % (len(ids), len(pairs), len(g.merge_pairs(10 ** 9))))
     ids = ids + pairs
     results = common.parallel_map(_life_replay_chunk, [c for c in (ids[i::common.NCPU * 2] for i in range(common.NCPU * 2)) if c])
     chk.count(sum(r[0] for r in results))
